@@ -243,6 +243,8 @@ TEMPLATES = [
     "%not bound% + 1",
     "%un.bound f%(1)",
     "%un bound% += 1",
+    "%order\u00a0total% * 2 + %a\u202fb%",
+    "%tab\there% + %semi;colon% + %hash#tag%",
 ]
 if isinstance(hlib.PARAM, dict) and "t" in hlib.PARAM:
     prewarm(TEMPLATES[hlib.PARAM["t"]])
@@ -261,4 +263,39 @@ def api_lookups(a: int, flag: bool) -> None:
     run_eval(text, host, 200)
     for k in host.asked:
         assert k in listed or k in IMPLICIT, "evaluation asked the host mapping for %r, which list_names does not report" % (k,)
+    hlib.done()
+
+
+with hlib.native(unwalled=True):
+    OTHER = SqParser()
+
+
+def names_interleaved(taken: int, what: int) -> None:
+    """
+    pre: 0 <= taken <= 4 and 0 <= what <= 3
+    post: True
+    """
+    # a lazily consumed listing is not disturbed by calls on ANOTHER parser in between
+    hlib.enter(locals())
+    taken, what = hlib.concrete(taken, 0, 4), hlib.concrete(what, 0, 3)
+    with hlib.native():
+        text = "%price% * qty + tax(rate, %ship ping%) # note"
+        full = list(PARSER.list_names(text))
+        g = PARSER.list_names(text)
+        got = []
+        for _ in range(taken):
+            got.append(next(g))
+        try:
+            if what == 0:
+                OTHER.eval("1 + 1")
+            elif what == 1:
+                OTHER.parse("zz = [1,\n 2")
+            elif what == 2:
+                list(OTHER.list_names("other names here"))
+            else:
+                next(OTHER.list_names("x y z"))
+        except Exception:
+            pass
+        got += list(g)
+    assert got == full == ['%price%', 'qty', 'tax', 'rate', '%ship ping%'], "a call on another parser disturbed a partly consumed list_names()"
     hlib.done()
